@@ -273,21 +273,23 @@ def run_spv_sizes(case):
 
 # ------------------------------------------------------------------ engine: spv-tamper
 TOTAL_BITS_ALL = 17  # total-count bits 0..16 are flipped for every proof
+SMALL_N = 3  # bits 17..hi_bit only for the proofs of trees with <= 3 leaves
 MUST_FAIL = ("hash-bit", "root-bit", "drop-hash", "dup-hash", "extra-hash", "swap-hash")
 
 
 def gen_spv_tamper(tier, seed):
     top = 7 if tier == "quick" else 10
-    hi_bit = 20 if tier == "quick" else 26
+    hi_bit = 20 if tier == "quick" else 24
     cases = []
-    for n in range(1, top + 1):
-        for mask in range(1 << n):
-            cases.append({"n": n, "mask": mask, "seed": seed})
-    # large transaction counts allocate 2^(b+1) node slots in the library: only the proofs of the smallest trees
-    for n in range(1, 5):
-        for mask in range(1 << n):
-            for b in range(TOTAL_BITS_ALL, hi_bit + 1):
+    # large transaction counts make the library allocate 2^(b+1) node slots: only the proofs of the smallest
+    # trees, scheduled first (they are the slowest cases)
+    for b in range(hi_bit, TOTAL_BITS_ALL - 1, -1):
+        for n in range(1, SMALL_N + 1):
+            for mask in range(1 << n):
                 cases.append({"n": n, "mask": mask, "seed": seed, "totalbit": b})
+    for n in range(top, 0, -1):
+        for mask in range(1 << n):
+            cases.append({"n": n, "mask": mask, "seed": seed, "hib": hi_bit})
     return cases
 
 
@@ -375,10 +377,10 @@ def run_spv_tamper(case):
             ref_ok = r is not None and r[0][::-1] == R.parse_header(h2)["root_id"]
             res.ok(f"{cls}:accepted-benign(only block ids proved; reference {'accepts' if ref_ok else 'rejects'})", key, sample={"n": n, "mask": mask, "tamper": [cls, detail]} if cls != "flag-bit" else None)
     if "totalbit" not in case:
-        hi = 26
-        res.skip("total-count bits 27..31 (library would allocate >= 2^28 node slots)", 5)
-        if n > 4:
-            res.skip("total-count bits 17..26 for trees with more than 4 leaves (memory budget)", hi - TOTAL_BITS_ALL + 1)
+        hib = case.get("hib", 20)
+        res.skip(f"transaction-count bits {hib + 1}..31 (the library allocates the whole tree: >= 2^{hib + 2} node slots)", 31 - hib)
+        if n > SMALL_N:
+            res.skip(f"transaction-count bits {TOTAL_BITS_ALL}..{hib} for trees with more than {SMALL_N} leaves (time/memory budget)", hib - TOTAL_BITS_ALL + 1)
     return res
 
 
@@ -499,6 +501,9 @@ def target_class(t):
     return "regular"
 
 
+FULL_EXPS = [1, 2, 3, 4, 5, 16, 0x1C, 0x1D, 0x1E, 0x1F, 0x20]
+
+
 def gen_compact(tier, seed):
     cases = []
     exps_struct = list(range(0, 41)) + [0x7F, 0x80, 0xFE, 0xFF]
@@ -506,11 +511,11 @@ def gen_compact(tier, seed):
         for e in exps_struct:
             cases.append({"kind": "structured", "e": e})
     else:
-        for e in range(1, 33):
+        for e in FULL_EXPS:
             for hi in range(256):
                 cases.append({"kind": "full", "e": e, "hi": hi})
         for e in exps_struct:
-            if not 1 <= e <= 32:
+            if e not in FULL_EXPS:
                 cases.append({"kind": "structured", "e": e})
     for k0 in range(0, 256, 16):
         cases.append({"kind": "targets", "k0": k0, "seed": seed})
@@ -933,8 +938,9 @@ def engines(tier, seed):
             gen_spv_tamper,
             run_spv_tamper,
             kind="E1",
+            chunk=4,
             rule="every proof of every tree with 1..7 (thorough 1..10) leaves x all match subsets x {every single bit of every hash, of the header root, of every flag byte, "
-            "bits 0..16 of the transaction count (bits 17..20 quick / 17..26 thorough only for trees <= 4 leaves: memory), count set to 0/n-1/n+1/2n/2n+1/ceil(n/2), flag bytes dropped/appended, "
+            "bits 0..16 of the transaction count (bits 17..20 quick / 17..24 thorough only for trees <= 3 leaves, higher bits skipped: the library allocates the whole claimed tree), count set to 0/n-1/n+1/2n/2n+1/ceil(n/2), flag bytes dropped/appended, "
             "each hash dropped, duplicated, swapped with its neighbour, a foreign hash prepended/appended}. Oracle: is_valid() True => every proved id is a block id; "
             "for altered hash lists / root additionally is_valid() must not be True. Non-trivial = each (proof, alteration)",
         ),
@@ -952,7 +958,7 @@ def engines(tier, seed):
             run_compact,
             kind="E1",
             rule="quick: exponents 0..40,0x7f,0x80,0xfe,0xff x ~11 000 structured 24-bit mantissas (each byte swept over 0..255 with the other two over {00,01,7f,80,ff}); "
-            "thorough: ALL 2^24 mantissas (sign bit included) x every exponent 1..32 (2^29 compact values), structured set for the other exponents. bits_to_target must be the int of SetCompact "
+            "thorough: ALL 2^24 mantissas (sign bit included) x exponents {1,2,3,4,5,16,0x1c..0x20}, structured set for the other exponents. bits_to_target must be the int of SetCompact "
             "(negative values: refused or magnitude; overflowing: skipped), target_to_bits must equal GetCompact on each consensus target, on its all-ones "
             "full-precision neighbour (thorough sweep: for mantissas whose low byte is 00/80/ff), and on 2^k, 2^k+-1, ffff<<k, 7fffff<<k, 800000<<k, 7f<<k, 80<<k, filler>>(255-k) for every k<256 and 0",
         ),
